@@ -350,7 +350,7 @@ Qed.
 
 Lemma thread_step_starts st th : starts (trace (fst (thread_step st th))) = starts (trace st).
 Proof.
-  unfold thread_step. destruct (t_hung th || t_done th); simpl; auto.
+  unfold thread_step. destruct (t_hung th); simpl; auto.
   destruct (t_prog th) as [|e r]; simpl; auto.
   destruct e; simpl; auto. destruct (d_hang _); simpl; auto.
 Qed.
@@ -461,7 +461,7 @@ Lemma thread_step_later st th :
   trace (fst (thread_step st th)) = trace st \/
   exists e, trace (fst (thread_step st th)) = e :: trace st /\ later_ev e.
 Proof.
-  unfold thread_step. destruct (t_hung th || t_done th); simpl; auto.
+  unfold thread_step. destruct (t_hung th); simpl; auto.
   destruct (t_prog th) as [|e r]; simpl; auto.
   destruct e; simpl; auto; try (right; eexists; split; [reflexivity|exact I]).
   destruct (d_hang _); simpl; auto. right; eexists; split; [reflexivity|exact I].
